@@ -914,6 +914,16 @@ func exImportedElementGraphs() []*exGraph {
 			"paths":     m{"/o": m{"get": m{"parameters": []interface{}{m{"$ref": "#/parameters/pageSize"}}, "responses": m{"404": m{"$ref": "#/responses/notFound"}}}}}}
 		out = append(out, exFromGeneric(m{"file:///cv/root.json": root}, "file:///cv/root.json"))
 	}
+	// an operation without a `responses` member (the decoder leaves a nil pointer): its parameters are references like any others
+	{
+		root := m{"swagger": "2.0", "info": m{"title": "root", "version": "1"},
+			"definitions": m{"leaf": m{"type": "string", "description": "leaf"}, "node": m{"type": "object", "properties": m{"next": m{"$ref": "#/definitions/node"}, "l": m{"$ref": "#/definitions/leaf"}}}},
+			"parameters":  m{"filter": m{"name": "filter", "in": "body", "schema": m{"$ref": "#/definitions/leaf"}}, "tree": m{"name": "tree", "in": "body", "schema": m{"$ref": "#/definitions/node"}}},
+			"paths": m{"/bare": m{"get": m{"parameters": []interface{}{m{"$ref": "#/parameters/filter"}}},
+				"post": m{"parameters": []interface{}{m{"name": "b", "in": "body", "schema": m{"$ref": "#/definitions/leaf"}}}},
+				"put":  m{"parameters": []interface{}{m{"$ref": "#/parameters/tree"}}, "responses": m{}}}}}
+		out = append(out, exFromGeneric(m{"file:///nr/root.json": root}, "file:///nr/root.json"))
+	}
 	// documents used both by the sections walked first (definitions, shared parameters, shared responses) and under paths: one
 	// expansion, one request each
 	{
